@@ -330,7 +330,10 @@ impl NarrowedShape {
         match &mut self.types {
             NarrowingShape::Narrowed(types) => {
                 for s in types.iter() {
-                    if s.equivalent(&shape, symbol_table) {
+                    // `equivalent` is one-directional for tuples, lists and modules (left is
+                    // contained in right), so a candidate is only a duplicate when it
+                    // holds both ways. Otherwise a later, larger candidate would be lost.
+                    if s.equivalent(&shape, symbol_table) && shape.equivalent(s, symbol_table) {
                         return;
                     }
                 }
